@@ -317,6 +317,65 @@ def ignoring_case(ctx, idx):
         a.close()
 
 
+def silent_case(ctx, idx):
+    """Repeated SEND-side crossings on a link that carries nothing inbound: the sender emits IGNORE
+    messages (never answered), so the only way it can notice the threshold is its own idle read
+    poll.  Every crossing must start - and complete - a key exchange, not only the first one."""
+    rng = ctx.rng
+    side = "c" if idx % 2 else "s"
+    unit = ["bytes", "packets"][(idx // 2) % 2]
+    desc = dict(kind="silent-link", sender=side, unit=unit)
+    p = pair.Pair(rng)
+    try:
+        if not p.start() or not p.auth():
+            ctx.inconclusive("C10 silent pair failed to start: %r %r" % (p.client_exc, p.server_exc))
+            return
+        t = p.tc if side == "c" else p.ts
+        p.wait_quiet(0.2, 5)
+        if unit == "bytes":
+            t.packetizer.REKEY_BYTES = 4096
+            n_msgs, size = 12, 400
+        else:
+            t.packetizer.REKEY_PACKETS = 30
+            n_msgs, size = 34, 16
+        rounds = 3
+
+        def kexinits():
+            return sum(1 for e in p.rec.snapshot() if e.get("kind") == "msg" and e["side"] == side
+                       and e["dir"] == "out" and e["type"] == MSG_KEXINIT)
+
+        def newkeys_in():
+            return sum(1 for e in p.rec.snapshot() if e.get("kind") == "msg" and e["side"] == side
+                       and e["dir"] == "in" and e["type"] == MSG_NEWKEYS)
+
+        base_k, base_n = kexinits(), newkeys_in()
+        for r in range(rounds):
+            try:
+                for _ in range(n_msgs):
+                    t.send_ignore(size)
+            except Exception as e:
+                ctx.violation("session died during threshold rekey (%s)" % type(e).__name__,
+                              "send_ignore on a silent link raised %r at crossing #%d" % (e, r + 1), dict(case=desc))
+                return
+            ok = pair.wait_for(lambda: kexinits() >= base_k + r + 1 and newkeys_in() >= base_n + r + 1, 12, 0.05)
+            ctx.count("silent_link_crossings")
+            if not ok:
+                if not (p.tc.is_active() and p.ts.is_active()):
+                    exc = p.tc.saved_exception or p.ts.saved_exception
+                    ctx.violation("session died during threshold rekey (%s)" % type(exc).__name__,
+                                  "transport inactive after crossing #%d on a silent link: %r" % (r + 1, exc), dict(case=desc))
+                else:
+                    ctx.violation("rekey threshold crossed but no KEXINIT sent at quiescence",
+                                  "silent link, %s threshold, crossing #%d of %d: %d KEXINIT sent, %d NEWKEYS received since the start"
+                                  % (unit, r + 1, rounds, kexinits() - base_k, newkeys_in() - base_n), dict(case=desc))
+                return
+            ctx.count("silent_link_crossings_rekeyed")
+            p.wait_quiet(0.2, 5)
+        ctx.case(("silent", side, unit, idx), sample=desc if idx < 1 else None)
+    finally:
+        p.close()
+
+
 def run(ctx):
     n_h = ctx.pick(5, 40)
     n_i = ctx.pick(4, 24)
@@ -329,6 +388,11 @@ def run(ctx):
         if time.time() > dl:
             break
         ctx.guard(ignoring_case, ctx, i)
+    for i in range(ctx.pick(2, 8)):
+        if time.time() > dl + 60:
+            break
+        ctx.guard(silent_case, ctx, i + ctx.shard)
+    ctx.require("silent_link_crossings_rekeyed", 24)
     ctx.require("threshold_crossings_justifying_a_rekey", 4)
     ctx.require("rekey_rounds_observed", 4)
     ctx.require("refusing_peers_dropped", 2)
